@@ -293,4 +293,157 @@ def verify_register_init_widths():
     return fv
 
 
-ALL = [verify_map_flatten, verify_array_flatten, verify_register_iter, verify_register_init_widths]
+def verify_collection_init(cls):
+    """FieldActionMap.__init__(fields: dict) / FieldActionArray.__init__(fields: list): the stored collection is built IN THE ORDER of the
+    argument, one entry per item (one arbitrary iteration of the loop):
+      starts empty; before the loop only an argument that is not a non-empty dict / list is refused;
+      an item is refused only if its key is not a non-empty string (map) or it is neither a Field, a dict nor a list;
+      a Field item stores what ITS create() returned, a dict item a FieldActionMap built from that dict, a list item a FieldActionArray built
+      from that list - under the item's own key (map: `_fields[key] = ...`, insertion order) / appended at the end (array);
+      exactly one store per item, none outside the loop, no early exit.
+    With flatten() walking `_fields` in its own order this gives: fields are visited in declaration order (dict and list order)."""
+    fv = FnVerifier(f"csr.reg.{cls}.__init__", [])
+    fn = find_def(FILE, f"{cls}.__init__")
+    is_map = cls == "FieldActionMap"
+    ex = Exec(FILE, cls, axioms=[])
+    ISCOLL, KEY_STR, KEY_NONEMPTY, K_FIELD, K_DICT, K_LIST = z3.Bools("arg_is_the_right_collection key_is_str key_nonempty item_is_Field item_is_dict item_is_list")
+    n = z3.Int("item_count")
+
+    class ArgModel:
+        def length(self, ex_, recv, q, node):
+            return n
+
+        def call_items(self, ex_, recv, a, kw, q, node):
+            return [(("items-of", recv), q)]
+    fields = SymObj("dict" if is_map else "list", "fields", model=ArgModel())
+
+    class KeyModel:
+        def truth(self, ex_, v):
+            return KEY_NONEMPTY
+    key = SymObj("key", "key", model=KeyModel())
+    created = SymObj("FieldAction", "what item.create() returned")
+
+    class ItemModel:
+        def call_create(self, ex_, recv, a, kw, q, node):
+            q.ghost["made"] = q.ghost.get("made", ()) + (("create", recv),)
+            return [(created, q), (Raised("refused-by-create"), q.fork())]
+    item = SymObj("item", "one item of the argument", model=ItemModel())
+    submap, subarr = SymObj("FieldActionMap", "nested map"), SymObj("FieldActionArray", "nested array")
+
+    def mk(what, obj):
+        def h(ex_, recv, a, kw, q, node):
+            q.ghost["made"] = q.ghost.get("made", ()) + ((what, tuple(a), dict(kw)),)
+            return [(obj, q), (Raised(f"refused-by-{what}"), q.fork())]
+        return h
+    ex.contracts["FieldActionMap"] = mk("FieldActionMap", submap)
+    ex.contracts["FieldActionArray"] = mk("FieldActionArray", subarr)
+
+    def isinst(v, ty, node):
+        t = ty.split(".")[-1]
+        if v is fields:
+            return ISCOLL if t == ("dict" if is_map else "list") else z3.BoolVal(False)
+        if v is key and t == "str":
+            return KEY_STR
+        if v is item:
+            return {"Field": K_FIELD, "dict": K_DICT, "list": K_LIST}.get(t)
+        return None
+    ex.isinstance_hook = isinst
+
+    class StoreModel:
+        def setitem(self, ex_, recv, k_, v, q, node):
+            q.ghost["stored"] = q.ghost.get("stored", ()) + (("setitem", k_, v),)
+            return [("fall", None, q)]
+
+        def call_append(self, ex_, recv, a, kw, q, node):
+            q.ghost["stored"] = q.ghost.get("stored", ()) + (("append", None, a[0] if a else None),)
+            return [(NONE, q)]
+    store = SymObj("store", "self._fields", model=StoreModel())
+
+    class SelfModel:
+        def setattr(self, ex_, obj, attr, value, q, node):
+            if attr != "_fields":
+                return None
+            from vf.pyvc.engine import Empty
+            empty = (isinstance(value, DictLit) and not value.items) or (isinstance(value, Empty))
+            ex_.oblige("the-stored-collection-starts-empty", q, z3.BoolVal(bool(empty)), node)
+            q.heap[(id(obj), attr)] = store
+            q.writes.append((obj.name, attr))
+            q.ghost["store_set"] = q.ghost.get("store_set", 0) + 1
+            return [("fall", None, q)]
+    self_ = SymObj(cls, "self", model=SelfModel())
+    marks = {}
+
+    def loop(ex_, st_node, path):
+        it = ast.unparse(st_node.iter)
+        if it != ("fields.items()" if is_map else "fields"):
+            ex_.unsupported(st_node, f"loop over {it}")
+        marks["before"] = path.ghost.get("stored", ())
+        out = []
+        tgt = Tup((key, item)) if is_map else item
+        for kind, _, q2 in ex_.assign(st_node.target, tgt, path.fork(), st_node):
+            for kind2, val2, q3 in ex_.block(st_node.body, q2):
+                if kind2 in ("fall", "continue"):
+                    marks.setdefault("passed", []).append(q3)
+                elif kind2 == "raise":
+                    marks.setdefault("refused", []).append((val2, q3))
+                    out.append((kind2, val2, q3))
+                else:
+                    ex_.oblige("every-item-is-visited:no-early-exit", q3, z3.BoolVal(False), st_node)
+        out.append(("fall", None, path))
+        return out
+
+    class _Every(dict):
+        def get(self, key_, default=None):
+            return loop
+    ex.loop_invariants = _Every()
+    q = Path(); q.assume(n >= 0)
+    q.assume(z3.And(z3.Not(z3.And(K_FIELD, K_DICT)), z3.Not(z3.And(K_FIELD, K_LIST)), z3.Not(z3.And(K_DICT, K_LIST))))      # an object has one class
+    q.env.update({"self": self_, "fields": fields})
+    outs = ex.run(fn, q)
+    fv.paths = len(outs)
+    key_ok = z3.And(KEY_STR, KEY_NONEMPTY) if is_map else z3.BoolVal(True)
+    n_ok = 0
+    for k_, o in enumerate(outs):
+        p, lab = o.path, f"path{k_}"
+        if o.kind == "raise":
+            if o.exc.startswith("refused-by-"):
+                continue
+            in_loop = any(q3 is p for _, q3 in marks.get("refused", []))
+            if in_loop:
+                fv.add("only-an-invalid-item-is-refused", lab, p.pc, z3.Not(z3.And(key_ok, z3.Or(K_FIELD, K_DICT, K_LIST))))
+            else:
+                fv.add("outside-the-loop-only-a-wrong-or-empty-argument-is-refused", lab, p.pc, z3.Or(z3.Not(ISCOLL), n == 0))
+            continue
+        n_ok += 1
+        fv.add("nothing-stored-outside-the-loop", lab, p.pc, z3.BoolVal(p.ghost.get("stored", ()) == () and p.ghost.get("store_set", 0) == 1))
+    for k_, q3 in enumerate(marks.get("passed", [])):
+        lab = f"item{k_}"
+        st = q3.ghost.get("stored", ())[len(marks.get("before", ())):]
+        made = q3.ghost.get("made", ())
+        fv.add("exactly-one-store-per-item", lab, q3.pc, z3.BoolVal(len(st) == 1))
+        if len(st) != 1:
+            continue
+        how, k2, v = st[0]
+        fv.add("stored-under-the-item's-own-key" if is_map else "appended-at-the-end", lab, q3.pc, z3.BoolVal((how == "setitem" and k2 is key) if is_map else how == "append"))
+        want = z3.BoolVal(False)
+        if v is created:
+            want = z3.And(K_FIELD, z3.BoolVal(("create", item) in made))
+        elif v is submap:
+            want = z3.And(K_DICT, z3.BoolVal(("FieldActionMap", (item,), {}) in made))
+        elif v is subarr:
+            want = z3.And(K_LIST, z3.BoolVal(("FieldActionArray", (item,), {}) in made))
+        fv.add("a-Field-stores-its-create()-a-dict-a-nested-map-a-list-a-nested-array-built-from-the-item", lab, q3.pc, want)
+    fv.add("cover:three-item-kinds-stored-and-one-refused", "vacuity", [], z3.BoolVal(len(marks.get("passed", [])) >= 3 and len(marks.get("refused", [])) >= 1 and n_ok >= 1))
+    fv.add_engine_obligations(ex)
+    return fv
+
+
+def verify_map_init():
+    return verify_collection_init("FieldActionMap")
+
+
+def verify_array_init():
+    return verify_collection_init("FieldActionArray")
+
+
+ALL = [verify_map_flatten, verify_array_flatten, verify_register_iter, verify_register_init_widths, verify_map_init, verify_array_init]
